@@ -54,6 +54,56 @@ pub fn mismatch(what: &str, expected: Value, observed: Value) -> Value {
     serde_json::json!({"kind": "mismatch", "what": what, "expected": expected, "observed": observed})
 }
 
+/// CPU time consumed so far by the calling thread, in milliseconds.  Time bounds are judged on CPU time: it never
+/// exceeds the wall-clock time of a single-threaded computation, and it does not grow when the machine is busy.
+pub fn thread_cpu_ms() -> u64 {
+    let mut ts = libc::timespec { tv_sec: 0, tv_nsec: 0 };
+    unsafe { libc::clock_gettime(libc::CLOCK_THREAD_CPUTIME_ID, &mut ts) };
+    ts.tv_sec as u64 * 1000 + ts.tv_nsec as u64 / 1_000_000
+}
+
+/// CPU time (user + system, including waited-for children) of a live process, in milliseconds.
+pub fn proc_cpu_ms(pid: u32) -> Option<u64> {
+    let s = std::fs::read_to_string(format!("/proc/{pid}/stat")).ok()?;
+    let rest = s.get(s.rfind(')')? + 2..)?;
+    let f: Vec<&str> = rest.split_whitespace().collect();
+    // `rest` starts at field 3 (state): utime, stime, cutime, cstime are fields 14..17
+    let mut t = 0u64;
+    for i in 11..=14 {
+        t += f.get(i)?.parse::<u64>().ok()?;
+    }
+    let hz = unsafe { libc::sysconf(libc::_SC_CLK_TCK) }.max(1) as u64;
+    Some(t * 1000 / hz)
+}
+
+/// CPU time of a live process and of its live descendants (three levels), in milliseconds.
+pub fn proc_tree_cpu_ms(pid: u32) -> Option<u64> {
+    fn rec(pid: u32, depth: u32) -> Option<u64> {
+        let mut t = proc_cpu_ms(pid)?;
+        if depth > 0 {
+            if let Ok(tasks) = std::fs::read_dir(format!("/proc/{pid}/task")) {
+                for task in tasks.flatten() {
+                    if let Ok(kids) = std::fs::read_to_string(task.path().join("children")) {
+                        for k in kids.split_whitespace().filter_map(|k| k.parse::<u32>().ok()) {
+                            t += rec(k, depth - 1).unwrap_or(0);
+                        }
+                    }
+                }
+            }
+        }
+        Some(t)
+    }
+    rec(pid, 3)
+}
+
+/// CPU time of all children this process has waited for, in milliseconds.
+pub fn children_cpu_ms() -> u64 {
+    let mut ru: libc::rusage = unsafe { std::mem::zeroed() };
+    unsafe { libc::getrusage(libc::RUSAGE_CHILDREN, &mut ru) };
+    let ms = |tv: libc::timeval| tv.tv_sec as u64 * 1000 + tv.tv_usec as u64 / 1000;
+    ms(ru.ru_utime) + ms(ru.ru_stime)
+}
+
 pub fn seed_from_env() -> u64 {
     std::env::var("VERIF_SEED").ok().and_then(|s| s.parse().ok()).unwrap_or(1)
 }
